@@ -55,7 +55,14 @@ class Roles:
         m["pack_writer"] = first([b for b in ds if calls_adapter(b, "write_object") and not passthrough(b, "write_object")])
         m["pack_applier"] = first([b for b in ds if self._calls(b, lambda c, t, x: c.target() == "utils::digest_bytes") and
                                    not self._calls(b, lambda c, t, x: c.trait == ADAPTER_TRAIT)])
-        m["applier"] = first([b for b in melda if self._calls(b, lambda c, t, x: c.target() == "revisiontree::RevisionTree::unvalidated_add")])
+        # applier: the private function that applies a whole block (takes a `&Delta`) and reaches the tree insertion, itself or
+        # through a private per-record helper; fallback: the function that calls the insertion directly
+        def reaches_insert(b):
+            from .common import members_of
+            return any(t.callee is not None and t.callee.target() == "revisiontree::RevisionTree::unvalidated_add"
+                       for mb in members_of(f, b, 2) for _, t in mb.calls())
+        whole = [b for b in melda if not b.public and any("melda::Delta" in b.local_ty(i) and b.local_ty(i).startswith("&") for i in range(1, b.argc + 1)) and reaches_insert(b)]
+        m["applier"] = first(whole) or first([b for b in melda if self._calls(b, lambda c, t, x: c.target() == "revisiontree::RevisionTree::unvalidated_add")])
         # marker: writes Status::Ready into a status field
         def writes_ready(b):
             from .conds import status_variant
